@@ -37,6 +37,9 @@ func gen(t *rapid.T) peng.Case {
 		if state[s] == "not-reading+flood" {
 			op := peng.Op{Kind: "flood", Thread: 0, Us: rapid.SampledFrom([]int{150, 400, 1200}).Draw(t, fmt.Sprintf("floodN%d", s))}
 			op.Call = scen.CallSpec{Node: s, Payload: rapid.SampledFrom([]int{1500, 6000}).Draw(t, fmt.Sprintf("floodP%d", s))}
+			// a third of the floods are multicasts to all nodes (with a context that lives on): the caller
+			// is then stuck handing a message to the node that does not read
+			op.Call.Kind = rapid.SampledFrom([]string{"", "", "Multicast"}).Draw(t, fmt.Sprintf("floodKind%d", s))
 			c.Ops = append(c.Ops, op)
 		}
 	}
@@ -200,7 +203,7 @@ func firstLine(s string) string {
 func TestProp(t *testing.T) {
 	vt.Main(t, vt.Spec[peng.Case]{
 		ID:           "C08",
-		Rule:         "rapid-generated cases: 1-4 nodes each in a generated state (healthy, down from the start, never answering = handler released and held, not reading = handler held without Release so the server stops reading the connection, not reading + a flood of 150-1200 background one-way messages of 1.5-6 KB that exhausts the flow-control window); 2-18 subject calls of all 20 kinds from 1-5 threads, every one with a context that ends (cancel after 1 us - 3 ms, deadline 1 us - 5 ms, pre-cancelled), send buffer 0/1/2/8; server-stream calls in 1 of 3 cases against endless streams with a slow quorum function that never reports done; in half of the cases seeded jitter at the statement-level yield points of the instrumented runtime; while the nodes still misbehave, every call whose context has ended must have returned / completed within the hang bound (confirmed by two goroutine dumps 10 s apart), and an error caused by the context end must match the context's error under errors.Is; non-trivial (measured) = a context ended while its call was unfinished and some node was down / not answering / not reading",
+		Rule:         "rapid-generated cases: 1-4 nodes each in a generated state (healthy, down from the start, never answering = handler released and held, not reading = handler held without Release so the server stops reading the connection, not reading + a flood of 150-1200 background one-way messages of 1.5-6 KB - unicasts, or in a third of the floods multicasts to all nodes, with a context that lives on - that exhausts the flow-control window); 2-18 subject calls of all 20 kinds from 1-5 threads, every one with a context that ends (cancel after 1 us - 3 ms, deadline 1 us - 5 ms, pre-cancelled), send buffer 0/1/2/8; server-stream calls in 1 of 3 cases against endless streams with a slow quorum function that never reports done; in half of the cases seeded jitter at the statement-level yield points of the instrumented runtime; while the nodes still misbehave, every call whose context has ended must have returned / completed within the hang bound (confirmed by two goroutine dumps 10 s apart), and an error caused by the context end must match the context's error under errors.Is; non-trivial (measured) = a context ended while its call was unfinished and some node was down / not answering / not reading",
 		Gen:          gen,
 		Run:          run,
 		TrackCurrent: true,
